@@ -147,9 +147,15 @@ def _margin_case(rng, k):
     if not female:
         dev += [abs(F(r[3]) - F(a)) for r in rows if r[0].endswith("Y")]
     dmax = max(dev)
-    return {"op": "sex_margin", "tag": "margin-%s-%s" % (flavour, "in" if 4 * dmax < 1 else "out"),
+    # four tables in ten carry a weight column (compare_to_auto then takes descriptives.weighted_median): weights
+    # skewed so that the heavy bins are the ones pushed furthest
+    with_w = rng.random() < 0.4
+    if with_w:
+        for r in rows:
+            r.append(rng.choice([1.0, 0.05, 0.5, round(rng.uniform(0.01, 1), 3)]))
+    return {"op": "sex_margin", "tag": "margin-%s-%s%s" % (flavour, "in" if 4 * dmax < 1 else "out", "-w" if with_w else ""),
             "in": {"rows_f": rows, "hapX": hapx, "female": female, "a": frac(a), "d": "%d/%d" % (dmax.numerator, dmax.denominator),
-                   "flavour": flavour, "pattern": pattern}}
+                   "flavour": flavour, "pattern": pattern, "with_w": with_w}}
 
 
 def gen_cases(rng, tier):
@@ -358,8 +364,8 @@ def run_impl(case):
     if op == "sex_margin":
         from scipy.stats import median_test
         from cnvlib import commands
-        cols = ["chromosome", "start", "end", "gene", "log2"]
-        rows = [[r[0], r[1], r[2], "G", r[3]] for r in i["rows_f"]]
+        cols = ["chromosome", "start", "end", "gene", "log2"] + (["weight"] if i.get("with_w") else [])
+        rows = [[r[0], r[1], r[2], "G"] + list(r[3:]) for r in i["rows_f"]]
         cna = _cna(rows, cols)
         is_xy, stats = cna.compare_sex_chromosomes(i["hapX"], None)
         auto_l = cna.autosomes()["log2"].values
@@ -376,11 +382,22 @@ def run_impl(case):
         st = {"xF": raw(x + fx), "xM": raw(x + mx)}
         if len(y):
             st.update(yF=raw(y + 3), yM=raw(y + 0))
+        est = None
+        if i.get("with_w"):
+            # the location estimates the weighted branch of compare_to_auto works with (the real weighted_median)
+            from cnvlib import descriptives
+            wm = lambda v, w: frac(float(descriptives.weighted_median(v, w)))
+            aw = cna.autosomes()["weight"].values
+            xw = cna[cna.chromosome == cna.chr_x_label]["weight"].values
+            yw = cna[cna.chromosome == cna.chr_y_label]["weight"].values
+            est = {"A": wm(auto_l, aw), "XF": wm(x + fx, xw), "XM": wm(x + mx, xw)}
+            if len(y):
+                est.update(YF=wm(y + 3, yw), YM=wm(y + 0, yw))
         lr = stats["chrx_male_lr"]
         rep = commands.do_sex([cna], i["hapX"], None)
         xx = cna.guess_xx(i["hapX"], verbose=False)
         return {"is_male": bool(is_xy), "chrx_male_lr": None if not math.isfinite(lr) else frac(float(lr)),
-                "report": str(rep["sex"].iat[0]), "guess_xx": bool(xx), "stats": st,
+                "report": str(rep["sex"].iat[0]), "guess_xx": bool(xx), "stats": st, "est": est,
                 "columns": list(rep.columns), "nrep": len(rep)}
     if op == "sex":
         from scipy.stats import median_test
@@ -425,6 +442,8 @@ def to_line(case, impl):
         if err or any(v == "nan" for v in impl["stats"].values()):
             return {"op": "sex_margin", "in": base}
         base["stats"] = impl["stats"]
+        if impl.get("est"):
+            base["est"] = impl["est"]
         return {"op": "sex_margin", "in": base, "impl": {"is_male": impl["is_male"], "report": impl["report"]}}
     if op == "sex":
         rows = [[r[0], r[1], r[2], frac(r[3]), None] for r in i["rows_f"]]
@@ -466,6 +485,8 @@ def judge(case, impl, resp):
         if impl["report"] != ("Male" if impl["is_male"] else "Female") or impl["guess_xx"] == impl["is_male"] \
                 or impl["columns"] != ["sample", "sex", "X_logratio", "Y_logratio"] or impl["nrep"] != 1:
             dis.append(f"sex report / guess_xx differ from compare_sex_chromosomes: {impl['report']} {impl['guess_xx']} {impl['is_male']}")
+        if impl.get("est") and out["rows_within"] and not out["hyp"] and Fraction(case["in"]["d"]) < Fraction(2499, 10000):
+            dis.append("a weighted median lies outside the range of its data (bins within the margin, estimates not)")
         if out["deg_mismatch"]:
             dis.append(f"median_test raised on other tables than the model's degenerate ones: {out['deg_mismatch']} {out['tables']}")
         if Fraction(resp["slack"]) < Fraction(1, 10 ** 9):
